@@ -3,6 +3,7 @@
 #![allow(unused, non_snake_case, non_camel_case_types, dead_code, unreachable_code, non_upper_case_globals)]
 use vstd::prelude::*;
 use verus_builtin_macros::{verus_spec, verus_verify, proof, proof_decl};
+use vstd::std_specs::cmp::*;
 
 verus! {
 broadcast use effectlog::group_effectlog;
@@ -18,6 +19,30 @@ impl View for ActorCell { type V = int; uninterp spec fn view(&self) -> int; }
 impl Clone for ActorCell {
     #[verifier::external_body]
     fn clone(&self) -> (r: Self) ensures r == *self { unimplemented!() }
+}
+
+impl ActorCell {
+    /// reading the occupant's status is harmless; what a caller may do with it is decided by the guard stubs below
+    #[verifier::external_body]
+    pub fn get_status(&self) -> ActorStatus { unimplemented!() }
+}
+// A-std: derive(PartialEq, PartialOrd) on the fieldless repr(u8) enum ActorStatus compares discriminants
+pub open spec fn status_cmp(a: ActorStatus, b: ActorStatus) -> Option<core::cmp::Ordering> {
+    if (a as u8) < (b as u8) { Some(core::cmp::Ordering::Less) }
+    else if (a as u8) == (b as u8) { Some(core::cmp::Ordering::Equal) }
+    else { Some(core::cmp::Ordering::Greater) }
+}
+pub assume_specification [<ActorStatus as PartialEq>::eq] (a: &ActorStatus, b: &ActorStatus) -> (r: bool)
+    ensures r == (*a == *b);
+pub assume_specification [<ActorStatus as PartialOrd>::partial_cmp] (a: &ActorStatus, b: &ActorStatus) -> (r: Option<core::cmp::Ordering>)
+    ensures r == status_cmp(*a, *b);
+impl PartialOrdSpecImpl for ActorStatus {
+    open spec fn obeys_partial_cmp_spec() -> bool { true }
+    open spec fn partial_cmp_spec(&self, b: &ActorStatus) -> Option<core::cmp::Ordering> { status_cmp(*self, *b) }
+}
+impl PartialEqSpecImpl for ActorStatus {
+    open spec fn obeys_eq_spec() -> bool { true }
+    open spec fn eq_spec(&self, b: &ActorStatus) -> bool { *self == *b }
 }
 
 // ------------------------------------------------------------------ dashmap stand-ins (A-dashmap: each entry operation is atomic for its key)
@@ -133,10 +158,17 @@ impl OccupiedEntry {
     #[verus_verify(external_body)]
     #[verus_spec(r => ensures r@ == self.key_view())]
     pub fn key(&self) -> &String { unimplemented!() }
+    /// looking at the holder is harmless
+    #[verus_verify(external_body)]
+    pub fn get(&self) -> &ActorCell { unimplemented!() }
     /// guard stub: the holder of an occupied slot is never replaced
     #[verus_verify(external_body)]
     #[verus_spec(requires false)]
     pub fn insert(&mut self, value: ActorCell) -> ActorCell { unimplemented!() }
+    /// guard stub: nor handed out for mutation
+    #[verus_verify(external_body)]
+    #[verus_spec(requires false)]
+    pub fn get_mut(&mut self) -> &mut ActorCell { unimplemented!() }
     #[verus_verify(external_body)]
     #[verus_spec(requires false)]
     pub fn remove(self) -> ActorCell { unimplemented!() }
